@@ -800,6 +800,10 @@ func bodyC28(c c28Case, x *vkit.Ctx) {
 	}
 	h.cl = m.cl
 
+	// two scripts in three run with the client's goroutines lingering after
+	// they release one of the client's mutexes (see lockYield below)
+	lockYield(len(c.Ops) % 3)
+	defer lockYield(0)
 	okRun := h.run(c)
 
 	// ---- wind down: Close (idempotent; from three goroutines at once if the
@@ -899,4 +903,41 @@ func bodyC28(c c28Case, x *vkit.Ctx) {
 func TestC28(t *testing.T) {
 	log.SetOutput(io.Discard) // the client logs dropped records through the std logger
 	vkit.Run(t, "C28", genC28, bodyC28)
+}
+
+// setLockHook installs a function that the client's mutexes call before every
+// acquire ("lock", "rlock") and after every release ("unlock", "runlock"); it
+// does something only when the package is built with the "clientlocks"
+// overlay of /verif/overlaygen (see yield_overlay_test.go).
+var setLockHook = func(h func(op string)) {}
+
+func linger(d time.Duration) {
+	for t0 := time.Now(); time.Since(t0) < d; {
+		runtime.Gosched()
+	}
+}
+
+// lockYield makes every goroutine of the client linger after it released one
+// of the client's mutexes: mode 0 not at all, mode 1 for 40us after every
+// release, mode 2 for 100us after releasing a read lock. That is where a
+// goroutine that tested under one critical section and acts under the next
+// (or outside of any) can be overtaken. Lingering is something any scheduler
+// may do: it adds schedules and cannot make correct code fail.
+func lockYield(mode int) {
+	switch mode {
+	case 1:
+		setLockHook(func(op string) {
+			if op == "unlock" || op == "runlock" {
+				linger(40 * time.Microsecond)
+			}
+		})
+	case 2:
+		setLockHook(func(op string) {
+			if op == "runlock" {
+				linger(100 * time.Microsecond)
+			}
+		})
+	default:
+		setLockHook(nil)
+	}
 }
